@@ -1,7 +1,7 @@
 """Case generators, one function per property.  Every generator returns a list of case lines
 ("name tok tok ...").  Order: corpus (past failures) first, boundary cross-products, then seeded
 random.  The deterministic part does not depend on the seed."""
-import itertools, os
+import itertools, os, random
 from common import *
 
 HERE = os.path.dirname(os.path.abspath(__file__))
@@ -783,6 +783,15 @@ def gen_C19(tier, seed):
     for f in ["", "%", "%%", "%Q", "abc", "%Y-", "%Y--", "%Y---%m", "%A, ", "%A,?", "%y,?", "%p", "%Y?", "%?", "%Y?-", "%é", "%Yé%m", "x%Y",
               "%Y" * 16, "%Y" * 17, "%Y-" * 16, "%Y-%m" * 9, "%f?" * 16, "%J", "%Y %J"]:
         out.append(f"fmt_debug {enc(f)}")
+    utc_pool = [parts_of(r.randint(days_from_civil(1, 1, 1), days_from_civil(9999, 12, 31)) * NPD + r.choice([0, 1, NPD - 1, r.randint(0, NPD - 1)])) for _ in range(200)]
+    for e in utc_pool[:40]:
+        for k in range(9):
+            out.append(f"rt_fmt_const {p2(e)} {k}")
+        for f in ["%Y-%m-%dT%H:%M:%S.%f", "%d/%m/%Y %H:%M:%S.%f", "%f %S %M %H %d %m %Y", "%Y_%m_%d_%H_%M_%S_%f", "%H:%M:%S.%f %Y/%m/%d"]:
+            out.append(f"rt_fmt {p2(e)} {enc(f)}")
+    for _ in range(budget(tier, 4000, 200000)):
+        e = r.choice(utc_pool)
+        out.append(f"rt_fmt {p2(e)} {enc(rand_format(r, full=(r.random() < 0.7)))}")
     n = budget(tier, 15000, 500000)
     pool = epoch_pool_calendar(g, 300)
     for _ in range(n):
@@ -843,3 +852,195 @@ def gen_C11(tier, seed):
 
 GENERATORS["C19"] = gen_C19
 GENERATORS["C11"] = gen_C11
+
+
+# ------------------------------------------------------------------------------ parsers
+NASTY = ["é", "٢", "½", " ", "μ", "²", "𝟙", " ", "٠", "Ⅷ", "T", "Z", "+", "-", ":", ".", " ", "0", "9", "%", "?", "e", "E", "_", "\t", "\n", "x"]
+
+
+def mutate(r, s, n=1):
+    for _ in range(n):
+        k = r.random()
+        i = r.randint(0, len(s)) if s else 0
+        if k < 0.25 and s:
+            s = s[:max(0, i - 1)] + s[i:]                      # delete
+        elif k < 0.55:
+            s = s[:i] + r.choice(NASTY) + s[i:]                # insert
+        elif k < 0.8 and s:
+            j = min(len(s) - 1, i)
+            s = s[:j] + r.choice(NASTY) + s[j + 1:]            # substitute
+        elif k < 0.9:
+            s = s[:i]                                          # truncate
+        else:
+            s = s[:i] + r.choice(["9" * r.randint(5, 40), "1e400", "inf", "nan", "-", "0" * 12]) + s[i:]
+    return s
+
+
+EPOCH_TEXTS = ["2017-01-14T00:31:55 UTC", "2017-01-14T00:31:55.0000 UTC", "2017-01-14T00:31:55", "2017-01-14 00:31:55", "2017-01-14 00:31:55.811 UTC",
+               "1994-11-05T13:15:30Z", "1994-11-05T08:15:30-05:00", "1994-11-05T08:15:30+10:30", "2018-02-13T23:08:32.123456983Z",
+               "2000-02-29T14:57:29.000000037 TAI", "1900-01-01T00:00:00 TT", "2020-06-30T23:59:60 UTC", "2016-12-31T23:59:60 UTC", "1980-01-06T00:00:00 GPST",
+               "2006-01-01T00:00:00 BDT", "1999-08-22T00:00:00 GST", "2020-01-01T00:00:00 QZSST", "2000-01-01T12:00:00 ET", "2000-01-01T12:00:00 TDB",
+               "JD 2452312.500372511 TDB", "JD 2452312.500372511 ET", "JD 2452312.500372511 TAI", "JD 2452312.5 UTC", "MJD 51544.5 TAI", "MJD 51544.5 UTC",
+               "MJD 51544.5 GPST", "MJD 51544.5 GST", "MJD 51544.5 BDT", "MJD 51544.5 TT", "MJD 51544.5 QZSST", "SEC 0.5 TAI", "SEC 66312032.18493909 TDB",
+               "SEC 1.5 GPST", "SEC 1 QZSST", "SEC 17.25 TT", "SEC 3 UTC", "SEC 5 ET", "SEC -12.5 BDT", "SEC 0.5TAI", "JD 1 éé", "ééééé", "٢٠١٧-01-14T00:31:55",
+               "2017-01-14T00:31:55.½ UTC", "SEC inf TAI", "SEC nan TAI", "JD inf ET", "MJD infinity UTC", "SEC 1e400 TAI", "JDXXXXX", "MJDAAAA", "SEC    TAI",
+               "2147483647-12-31T23:59:00", "-2147483648-01-01T00:00:00", "2017-13-01T00:00:00", "2017-02-30T00:00:00", "2017-01-14T25:00:00", "2017-01-14T00:60:00",
+               "2017-01-14T00:00:61", "2017-01-14T00:31:55.1234567890 UTC", "2017-01-14T00:31:55.123456789012 UTC", "2017-01-14T00:31:55 +01:00", "", "       ", "T",
+               "2017-01-14T00:31:55+1:00", "2017-01-14T00:31:55+99:00", "2017-01-14T00:31:55+01:99", "2017-01-14T00:31:55.5+01:30 GPST", "0001-01-01T00:00:00 UTC",
+               "9999-12-31T23:59:59.999999999 UTC", "10000-01-01T00:00:00 UTC", "2017-1-4T0:1:5", "2017-01-14T00:31:55Z UTC", "2017-01-14T00:31:55  UTC", "99999999999-01-01T00:00:00"]
+DUR_TEXTS = ["1 d", "10.598 days", "10.598 min", "10.598 us", "10.598 seconds", "10.598 nanosecond", "5 h 256 ms 1 ns", "-01:15:30", "+3615", "-5 h 256 ms 1 ns",
+             "1 day 99 ns", "36525 days 1 min 39 s", "10 s 100 ms", "0 ns", "-1 ns", "1 μs", "1 us", "3 hr", "2 mins", "4 minutes", "7 hours", "1 sec", "9 milliseconds",
+             "8 microsecond", "+01:30", "-00:00", "+05", "+0530", "-053015", "+05:30:15", "+aé", "+é", "-", "+", "", " ", "5", "5 ", "5 x", "5  d", "d", "5 d 6", "5 d  6 h",
+             "inf d", "nan s", "1e400 d", "-inf d", "1e-400 ns", "5 dé", "é d", "5 μ", "1.5 d 1.5 h 1.5 min 1.5 s 1.5 ms 1.5 us 1.5 ns", "0.5 d", "0.25 h", "1.125 s",
+             "99999999999999999999 d", "-99999999999999999999 d", "+99:99:99", "+1:2", "-1:15:30", "+12345", "+123456789", "5 d", "5 d ", "  5 d  ", "5 D", "5 Days"]
+NAME_TEXTS = ["UTC", "TT", "TAI", "TDB", "ET", "GPST", "GPS", "GST", "GAL", "BDT", "BDS", "QZSST", "QZSS", " UTC ", "utc", "", "é", "UT", "UTCC", "mon", "Mon", "MON", "monday",
+              "Monday", "MONDAY", "tue", "Wed", "THU", "friday", "Saturday", "SUNDAY", "Sund", " sun ", "jan", "Jan", "JANUARY", "february", "Mar", "apr", "may", "May", "MAY",
+              "june", "Jul", "AUG", "september", "oct", "Nov", "december", "Decem", "janv", "mAy"]
+
+
+def gen_C13(tier, seed):
+    g = EGen(seed)
+    r = g.r
+    out = corpus("C13")
+    for s in EPOCH_TEXTS:
+        out.append(f"p_epoch {enc(s)}")
+        out.append(f"p_greg {enc(s)}")
+    for s in DUR_TEXTS:
+        out.append(f"p_dur {enc(s)}")
+    for s in NAME_TEXTS:
+        out.append(f"p_ts {enc(s)}")
+        out.append(f"p_wd {enc(s)}")
+        out.append(f"p_month {enc(s)}")
+    for s in ["5", "+5", "-5", "05", "", "+", "-", "5a", "٢", "2147483647", "2147483648", "-2147483648", "-2147483649", "9223372036854775807", "9223372036854775808",
+              "-9223372036854775808", "18446744073709551615", "18446744073709551616", "1.5", "1e3"] + ["9" * k for k in range(1, 25)]:
+        for f in ("lex_i32", "lex_i64", "lex_u64"):
+            out.append(f"{f} {enc(s)}")
+    for s in ["1.5", "+1.5", "-1.5", ".5", "5.", "5.e3", "1e3", "1E3", "1e+3", "1e-3", "e3", "1e", "1e+", "inf", "INF", "infinity", "Infinity", "nan", "NaN", "-inf", "+inf",
+              "-nan", "1.5.2", "0x10", "1.5 ", "0.1", "123456789.125", "9007199254740992", "9007199254740991", "0.5", "0.25", "1e22", "1e-22", "1e23", "4503599627370496.5",
+              "0.000000001", "1000000000", "00012.500", "-0", "-0.0", "0e5", "1e0", ".", "+.", "-.e1", "infinit", "in", "1d5"]:
+        out.append(f"lex_f64 {enc(s)}")
+    # Unicode class tables: every range boundary of the generated tables, +/- 1
+    import re as _re
+    gen_uni = open(os.path.join(os.path.dirname(HERE), "coq", "Gen", "GenUnicode.v")).read()
+    cps = set()
+    for a, b in _re.findall(r"\((\d+), (\d+)\)", gen_uni):
+        for v in (int(a) - 1, int(a), int(b), int(b) + 1):
+            if 0 <= v <= 0x10FFFF and not (0xD800 <= v <= 0xDFFF):
+                cps.add(v)
+    for v in sorted(cps):
+        out.append(f"uni_class {v}")
+    n = budget(tier, 30000, 1500000)
+    for _ in range(n):
+        k = r.random()
+        if k < 0.4:
+            s = mutate(r, r.choice(EPOCH_TEXTS), r.choice([1, 1, 2, 3]))
+            out.append(f"{r.choice(['p_epoch', 'p_epoch', 'p_greg'])} {enc(s)}")
+        elif k < 0.7:
+            s = mutate(r, r.choice(DUR_TEXTS), r.choice([1, 1, 2, 3]))
+            out.append(f"p_dur {enc(s)}")
+        elif k < 0.8:
+            s = mutate(r, r.choice(NAME_TEXTS), r.choice([1, 2]))
+            out.append(f"{r.choice(['p_ts', 'p_wd', 'p_month'])} {enc(s)}")
+        elif k < 0.9:
+            s = mutate(r, r.choice(DOC_FORMATS + ["%Y" * 16, "%f?" * 10]), r.choice([1, 2, 3]))
+            out.append(f"fmt_debug {enc(s)}")
+        else:
+            s = mutate(r, r.choice(["1.5", "-12.25e3", "inf", "123", "+7"]), r.choice([1, 2]))
+            out.append(f"{r.choice(['lex_f64', 'lex_i32', 'lex_i64'])} {enc(s)}")
+    return out
+
+
+def gen_C10(tier, seed):
+    g = EGen(seed)
+    r = g.r
+    out = corpus("C10")
+    for n in day_iter(1, 9999, 997 if tier != "thorough" else 41):
+        for tod in (0, NPD - 1, 1, 12 * 3600 * SEC + 500 * 10**6, r.randint(0, NPD - 1)):
+            for t in INT_SCALES:
+                e = parts_of(n * NPD + tod - REF_NS.get(t, 0)) + (t,)
+                out.append(f"rt_disp {p3(e)}")
+                if t in (0, 4):
+                    out.append(f"rt_iso {p3(e)}")
+            c, nn = parts_of(n * NPD + tod)
+            out.append(f"rt_rfc3339 {c} {nn}")
+    for k in range(0, 10):
+        for form, oh, om in ((0, 0, 0), (1, 0, 0), (2, 0, 0), (3, 0, 0), (2, 23, 59), (3, 23, 59), (2, 10, 0), (3, 10, 30), (2, 5, 45), (3, 1, 0), (2, 12, 0)):
+            for sfx in (99, 4, 0, 5):
+                frac = 0 if k == 0 else r.randint(0, 10**k - 1)
+                out.append(f"iso_parse 1994 11 5 8 15 30 {frac} {k} {form} {oh} {om} {sfx} {r.randint(0, 1)}")
+                out.append(f"iso_parse 2016 12 31 23 59 59 {10**k - 1 if k else 0} {k} {form} {oh} {om} {sfx} 0")
+    for s in EPOCH_TEXTS[:40]:
+        out.append(f"p_epoch {enc(s)}")
+    n = budget(tier, 20000, 1000000)
+    for _ in range(n):
+        kk = r.random()
+        if kk < 0.45:
+            day = r.randint(days_from_civil(1, 1, 1), days_from_civil(9999, 12, 31))
+            tod = r.choice([0, 1, NPD - 1, r.randint(0, NPD - 1), r.randint(0, 86399) * SEC])
+            t = r.choice(INT_SCALES)
+            e = parts_of(day * NPD + tod - REF_NS.get(t, 0)) + (t,)
+            f = r.choice(["rt_disp", "rt_disp", "rt_iso"])
+            out.append(f"{f} {p3(e)}")
+            if r.random() < 0.3:
+                c, nn = parts_of(day * NPD + tod)
+                out.append(f"rt_rfc3339 {c} {nn}")
+        elif kk < 0.85:
+            y = r.randint(1, 9999); m = r.randint(1, 12); d = r.randint(1, mlen(y, m))
+            k = r.randint(0, 9)
+            frac = 0 if k == 0 else r.randint(0, 10**k - 1)
+            form = r.randint(0, 3)
+            out.append(f"iso_parse {y} {m} {d} {r.randint(0, 23)} {r.randint(0, 59)} {r.randint(0, 59)} {frac} {k} {form} {r.randint(0, 23)} {r.randint(0, 59)} {r.choice([99, 99, 0, 1, 4, 5, 6, 7, 8])} {r.randint(0, 1)}")
+        else:
+            form = r.choice(["JD", "MJD", "SEC"])
+            x = r.choice([r.uniform(-3e6, 3e6), float(r.randint(-3000000, 3000000)), r.randint(0, 10**7) / 64.0])
+            ts_ = r.choice(["TAI", "UTC", "TT", "GPST", "GST", "BDT", "QZSST"])
+            out.append(f"p_epoch {enc(f'{form} {x!r} {ts_}')}")
+    return out
+
+
+FMT_INPUTS = [("%Y-%m-%dT%H:%M:%S.%f %T", "2015-02-07T11:22:33.0 UTC"), ("%Y-%m-%dT%H:%M:%S.%f%z", "2018-02-13T23:08:32Z"),
+              ("%Y-%m-%dT%H:%M:%S.%f%z", "2018-02-13T23:08:32.123456983Z"), ("%Y-%m-%dT%H:%M:%S.%f%z", "1994-11-05T08:15:30-05:00"),
+              ("%Y-%m-%dT%H:%M:%S.%f%z", "1994-11-05T08:15:30+10:30"), ("%Y-%jT%H:%M:%S", "2023-117T12:55:26"), ("%Y-%j", "2000-060"),
+              ("%a, %d %b %Y %H:%M:%S", "Tue, 29 Feb 2000 14:57:29"), ("%A, %d %B %Y %H:%M:%S", "Tuesday, 29 February 2000 14:57:29"),
+              ("%A, %d %B %Y %H:%M:%S", "Monday, 29 February 2000 14:57:29"), ("%Y-%m-%d", "2020-01-05"), ("%Y-%m-%d", "2020-01-05X"),
+              ("%H:%M", "12:30"), ("%w", "2"), ("%y-%m-%d", "23-01-05"), ("%y-%m-%d", "2147483647-01-05"), ("%Y-%J", "2020-59.62325231481524"),
+              ("%Y-%j", "-2147483648-001"), ("%Y-%j", "2147483647-001"), ("%Y" * 16, "2020"), ("%Y-" * 16, "2020-" * 16), ("%Y-%m-%d %T", "2020-01-05 GPST"),
+              ("%Y-%m-%dT%H:%M:%S.%f", "2020-01-05T01:02:03.1234567890"), ("%Y-%m-%d", "ééééé"), ("%Y-%m-%d", "2020-é1-05"), ("%B %d %Y", "é 5 2020"),
+              ("%Y-%m-%d", ""), ("", "2020"), ("%T", "UTC"), ("%z", "+01:00"), ("%Y%z", "2020é01:00"), ("%Y-%m-%dT%H:%M:%S.%f%z", "1994-11-05T08:15:30+é0:30")]
+
+
+def gen_C13_fmt(r, out, n):
+    for f, s in FMT_INPUTS:
+        out.append(f"p_fmt {enc(f)} {enc(s)}")
+    for k in range(9):
+        for s in ["2015-02-07T11:22:33.0 UTC", "2018-02-13T23:08:32Z", "Tue, 29 Feb 2000 14:57:29", "2000-060", "2020-01-05", "ééé", ""]:
+            out.append(f"p_fmt_const {k} {enc(s)}")
+    for _ in range(n):
+        f, s = r.choice(FMT_INPUTS)
+        k = r.random()
+        if k < 0.4:
+            s = mutate(r, s, r.choice([1, 1, 2]))
+        elif k < 0.6:
+            f = mutate(r, f, 1)
+        elif k < 0.8:
+            f = rand_format(r)
+        else:
+            f = rand_format(r); s = mutate(r, s, 1)
+        if r.random() < 0.15:
+            out.append(f"p_fmt_const {r.randint(0, 8)} {enc(s)}")
+        else:
+            out.append(f"p_fmt {enc(f)} {enc(s)}")
+
+
+_gen_C13_base = gen_C13
+
+
+def gen_C13_all(tier, seed):
+    out = _gen_C13_base(tier, seed)
+    r = random.Random(seed + 13)
+    gen_C13_fmt(r, out, budget(tier, 15000, 500000))
+    return out
+
+
+GENERATORS["C13"] = gen_C13_all
+GENERATORS["C10"] = gen_C10
